@@ -22,6 +22,10 @@ def run(prog: Program, rep: Report, tier: str):
     rule_recursive(prog, rep)
     rule_freeze(prog, rep)
     rule_batchsafe(prog, rep)
+    # a wrapper keeps what it wraps as given: a constructor that unwraps its argument resolves nested NonTrainable
+    # markers once and for all (the frozen leaf becomes an ordinary trainable array of the stored copy)
+    from .c11 import rule_reparam
+    rule_reparam(prog, rep, R="C12.nested")
     if tier == "thorough":
         from ..audit import audit_generic
         audit_generic(prog, rep, "C12")
